@@ -735,6 +735,9 @@ def r7_board_untouched(ctx, chk, rule="C11.5b"):
 
 
 def run(ctx, chk):
+    shared.rule_no_complement_keys(ctx, chk, "C11.0:keys", shared.GENERATOR_MODULES)
+    shared.rule_no_module_level_iterators(ctx, chk, "C11.0:iter", shared.GENERATOR_MODULES)
+    shared.rule_single_use_iterators(ctx, chk, "C11.0:iter", shared.GENERATOR_MODULES)
     shared.rule_no_module_state(ctx, chk, "C11.0:state", [ctx.func("roberta_generator.py::write_robots")] + [f_ for f_ in ctx.prog.all_funcs(("stochastic_game_from_roborta_board.py",)) if f_.name == "create_sg_from_board"], "a game file is written")
     shared.rule_mutable_defaults(ctx, chk, "C11.0:defaults", shared.GENERATOR_MODULES)      # a call must not depend on the calls made before it
     r7_board_untouched(ctx, chk)
